@@ -150,6 +150,18 @@ def scenario_projects() -> List[Dict[str, Any]]:
                 "    def f(self):\n        \"\"\"Uses `the target`_ here.\n\n        .. _the target:\n\n        Target paragraph.\n        \"\"\"\n"
                 "def g():\n    \"\"\"Plain summary.\n\n    Body refers to more_.\n\n    .. _more:\n\n    More.\n    \"\"\"\n"),
     ], [])
+    # hunter round (C12/1, C12/2): a property is three objects (the attribute 'secret' and the sibling functions
+    # 'secret.setter', 'secret.deleter'): a rule for the property does not name the accessors; a PRIVATE class with a
+    # public (or a superseded, invisible) subclass in the class index
+    pasrc = ("'''m'''\nclass C:\n    '''c'''\n    @property\n    def secret(self):\n        '''Getter.'''\n        return 1\n"
+             "    @secret.setter\n    def secret(self, value):\n        '''Setter.'''\n    @secret.deleter\n    def secret(self):\n        '''Deleter.'''\n"
+             "    @property\n    def _quiet(self):\n        '''private by its name'''\n        return 1\n    @_quiet.setter\n    def _quiet(self, v):\n        '''s'''\n")
+    add("hidden-property-accessors", [U("pa", pasrc)], ["HIDDEN:pa.C.secret"])
+    add("private-property-accessors", [U("pa", pasrc)], ["PRIVATE:pa.C.secret"])
+    add("private-class-with-public-subclass", [
+        U("pcs", "'''m'''\nclass _Base:\n    '''b'''\nclass Public(_Base):\n    '''p'''\nclass _Lonely:\n    '''l'''\n"
+                 "class Twice(_Lonely):\n    '''first'''\nclass Twice:\n    '''second'''\nclass _Leaf(_Base):\n    '''leaf'''\n"),
+    ], [])
     # hunter round (C11/1..4) -----------------------------------------------------------------------------------------
     # the type of a re-exported variable given by an @type field of the ORIGINAL module's docstring: extract_fields hands
     # the very ParsedDocstring of the field body to the attribute; the module's FieldHandler.handle_type formats it too
@@ -1153,7 +1165,8 @@ def crawl_page(fn: str, text: str) -> Dict[str, Any]:
                 for a in A(div):
                     if first is None:
                         first = a
-                        entries.append(("classindex", a.get("href"), _has_private(li), ""))
+                        # the marker of the node (<li>: the class and everything listed below it) or of the row alone
+                        entries.append(("classindex", a.get("href"), _has_private(li) or _has_private(div), ""))
                         links.append(("classindex", a.get("href"), a.get("title") or _text(a)))
                     else:
                         links.append(("classindex-sum", a.get("href"), a.get("title") or _text(a)))
